@@ -30,7 +30,7 @@ pub struct Cfg {
     pub start: u16,
 }
 
-pub type Mask = u64; // bit i = terminal i, bit n_t = end of input
+pub type Mask = u128; // bit i = terminal i, bit n_t = end of input
 
 #[derive(Clone, Debug)]
 pub struct Sets {
@@ -43,19 +43,19 @@ pub struct Sets {
 
 impl Cfg {
     pub fn eof_bit(&self) -> Mask {
-        1u64 << self.n_t
+        (1 as Mask) << self.n_t
     }
 
     pub fn sets(&self) -> Sets {
-        assert!(self.n_t <= 62);
+        assert!(self.n_t <= 126);
         let mut nullable = vec![false; self.n_n];
-        let mut first = vec![0u64; self.n_n];
+        let mut first = vec![0 as Mask; self.n_n];
         loop {
             let mut ch = false;
             for r in &self.rules {
                 let l = r.lhs as usize;
                 let mut all_null = true;
-                let mut f = 0u64;
+                let mut f: Mask = 0;
                 for s in &r.rhs {
                     match *s {
                         S::T(t) => {
@@ -86,7 +86,7 @@ impl Cfg {
             }
         }
         // FOLLOW
-        let mut follow = vec![0u64; self.n_n];
+        let mut follow = vec![0 as Mask; self.n_n];
         follow[self.start as usize] |= self.eof_bit();
         loop {
             let mut ch = false;
@@ -185,7 +185,7 @@ impl Cfg {
 }
 
 pub fn first_of_seq(seq: &[S], nullable: &[bool], first: &[Mask]) -> (Mask, bool) {
-    let mut f = 0u64;
+    let mut f: Mask = 0;
     for s in seq {
         match *s {
             S::T(t) => {
